@@ -177,6 +177,9 @@ def install():
     m_file.write_atomic = write_atomic
     m_file.os = _OsModule()
     tm = _TimeModule()
+    if hasattr(m_times, 'time'):                  # (timestamp_before reads the clock through time.time since cf. known_findings)
+        saved.append((m_times, 'time', m_times.time))
+        m_times.time = tm
     m_base.time = tm
     m_mbtiles.time = tm
     m_sutil.time = tm
@@ -1282,6 +1285,58 @@ def code_to_spec(ctx, prec, tally):
     ctx.log('validated %d recorded histories' % total)
 
 
+def dst_case(ctx):
+    """The hour that the clocks of the server repeat when daylight saving time ends (a zone given as a POSIX TZ string, no
+    time zone database needed): the history
+        a tile is written at 02:30 summer time; twenty minutes later the cache is told to refresh what is older than ten
+        minutes (a relative rule: a wall-clock time in the configuration would itself be ambiguous in that hour)
+    on every backend with time stamps.  C13: the tile is older than the threshold, the next request fetches it again (and
+    the tile written then is served from the cache afterwards)."""
+    import time as _t
+    zone = 'CET-1CEST,M3.5.0,M10.5.0/3'
+    first_0230 = 1572136200                       # 2019-10-27T00:30:00Z = 02:30 CEST, an hour before 02:30 CET
+    old_tz = os.environ.get('TZ')
+    os.environ['TZ'] = zone
+    _t.tzset()
+    try:
+        lt = _t.localtime(first_0230)
+        if (lt.tm_hour, lt.tm_min, lt.tm_isdst) != (2, 30, 1) or _t.localtime(first_0230 + 3600).tm_isdst != 0:
+            raise tlc.MachineryError('the C library does not know the zone %s' % zone)
+        for backend in sorted(BACKENDS):
+            for path in ('single',):
+                w = make_world(os.path.join(ctx.sub('world'), 'dst-' + backend), backend, path, 2)
+                try:
+                    t0 = 2 * (first_0230 - BASE)                 # (ticks before BASE: the model is not involved here)
+                    w.do({'op': 'tick', 'd': t0 - _Env.tick})
+                    o1 = w.do({'op': 'request', 'tiles': ['t1']})
+                    w.do({'op': 'tick', 'd': 2400})
+                    w.do({'op': 'set', 'rule': R('age', 600)})
+                    o2 = w.do({'op': 'request', 'tiles': ['t1']})
+                    o3 = w.do({'op': 'request', 'tiles': ['t1']})
+                finally:
+                    w.close()
+                ctx.count(('dst', backend, path))
+                if len(o1['delta']) != 1:
+                    raise tlc.MachineryError('dst case: the first request made %d upstream requests' % len(o1['delta']))
+                if not o2['delta']:
+                    ctx.violation({'kind': 'dst-repeated-hour', 'backend': backend, 'what': 'stale-tile-served'},
+                                  '%s cache, server zone %s: a tile written at 02:30 summer time in the night the clocks are set back '
+                                  '(2019-10-27T00:30:00Z) is served from the cache twenty minutes later although refresh_before is ten minutes '
+                                  '(threshold 00:40:00Z): no upstream request; the cache reports the time stamp %s for it (ticks of half '
+                                  'a second after the write: %d)' % (backend, zone, o2['cache']['t1'], o2['cache']['t1'][0] - t0),
+                                  {'case': {'kind': 'dst', 'backend': backend}})
+                elif o3['delta']:
+                    ctx.violation({'kind': 'dst-repeated-hour', 'backend': backend, 'what': 'fresh-tile-fetched-again'},
+                                  '%s cache, server zone %s: the tile fetched at 02:50 summer time (refresh_before: ten minutes) is '
+                                  'fetched again by the next request' % (backend, zone), {'case': {'kind': 'dst', 'backend': backend}})
+    finally:
+        if old_tz is None:
+            os.environ.pop('TZ', None)
+        else:
+            os.environ['TZ'] = old_tz
+        _t.tzset()
+
+
 def run(ctx):
     tlc.sany(SPEC)
     install()
@@ -1295,6 +1350,7 @@ def run(ctx):
         code_to_spec(ctx, prec, tally2)
         tally2.check('recorded histories:')
         ctx.log('antecedents exercised on the real code: %s / %s' % (tally.n, tally2.n))
+        dst_case(ctx)
     finally:
         uninstall()
     ctx.assumptions += [
